@@ -109,9 +109,16 @@ static void run_once(cs_scenario *sc, int before, int after, int dk,
     vcp = vnacal_create((vnaerr_error_fn_t *)vf_errfn, &elog);
     if (vcp == NULL)
 	return;
+    /* names that begin like "target", that "target" begins with, and that
+       differ from it in case only: different names all the same */
+    static const char *const bname[4] = { "target_b", "tar", "Target", "ta" };
+    static const char *const aname[4] = { "t", "targe", "targetx", "TARGET" };
     for (int i = 0; i < before; ++i) {
 	char nm[16];
-	snprintf(nm, sizeof(nm), "before%d", i);
+	if (i < 4)
+	    snprintf(nm, sizeof(nm), "%s", bname[i]);
+	else
+	    snprintf(nm, sizeof(nm), "before%d", i);
 	if (add_unrelated(vcp, nm, i & 1) != 0) {
 	    snprintf(out->why, sizeof(out->why), "unrelated calibration");
 	    goto out;
@@ -191,7 +198,10 @@ static void run_once(cs_scenario *sc, int before, int after, int dk,
     }
     for (int i = 0; i < after; ++i) {
 	char nm[16];
-	snprintf(nm, sizeof(nm), "after%d", i);
+	if (i < 4)
+	    snprintf(nm, sizeof(nm), "%s", aname[i]);
+	else
+	    snprintf(nm, sizeof(nm), "after%d", i);
 	if (add_unrelated(vcp, nm, (i + 1) & 1) != 0) {
 	    snprintf(out->why, sizeof(out->why), "unrelated calibration");
 	    goto out;
